@@ -481,7 +481,8 @@ func c17Schedules(rep *report.Report, bound int, thorough bool) {
 			vbound = 1 // quick: the four-thread variants at one preemption (enough for the recursive read-lock deadlock)
 		}
 		rep.Set("preemption_bound["+v.name+"]", vbound)
-		ex := &vsched.Explorer{Bound: vbound, MaxSteps: 6000, MaxExecs: c17MaxExecs(thorough)}
+		ex := &vsched.Explorer{Bound: vbound, MaxSteps: 6000, MaxExecs: c17MaxExecs(thorough), ReplayEvery: 25}
+		ex.Cleanup = func() { _ = cur.db.Close() }
 		ex.KeyFn = func() string {
 			return strings.Join(cur.begin[:], "|") + "#" + cur.tuple + "#" + strings.Join(cur.errs, ";") + fmt.Sprint(cur.listeners)
 		}
@@ -629,6 +630,11 @@ func c17Schedules(rep *report.Report, bound int, thorough bool) {
 			}
 		}
 		ex.Explore()
+		rep.Count("replay_determinism_checks", int64(ex.Replays))
+		if len(ex.ReplayDiffs) > 0 {
+			rep.Set("replay_divergences"+"["+v.name+"]", ex.ReplayDiffs)
+			rep.Capped("a replayed choice sequence did not reproduce its schedule: nondeterminism the harness does not own (no verdict drawn from it)")
+		}
 		rep.Count("states", int64(ex.Executions))
 		rep.Set("schedules["+v.name+"]", ex.Executions)
 		rep.Set("alternatives_pruned_by_state_key["+v.name+"]", ex.Pruned)
